@@ -57,6 +57,36 @@ def drn1_abcf(ctx, prog, cfg, rule="DRN1"):
             ctx.check(f.pos_dominates((tb, len(f.blocks[tb]["stmts"])), (sb, si), False), rule, OVER, "b: validation before the store", short_loc(f, tb),
                       "`size` is cleared before the range has been validated: the documented range panic then leaves the buffer emptied",
                       "translate_range_bounds bb%d dominates the store bb%d" % (tb, sb), cfg)
+    # (g) the struct invariant the guard reasoning assumes about every Drain (range.start <= iter.start <= iter.end <= range.end
+    #     <= buf_size <= N) is *established* where the Drain is built: the facts at the aggregate (the postcondition of the
+    #     validated range, INV for the saved size) entail it for the field values
+    for (b, i) in builders.get(OVER, []):
+        st = f.blocks[b]["stmts"][i]
+        e = f.deep_simplify(f.rvalue_expr(st["rv"], b, i))
+        d = dict(e[3]) if isinstance(e, tuple) and e and e[0] == "agg" else {}
+
+        def rng(x):
+            x = d.get(x)
+            if isinstance(x, tuple) and x and x[0] == "agg" and str(x[1]).endswith("Range"):
+                dd = dict(x[3])
+                return guards.norm(dd.get("start")), guards.norm(dd.get("end"))
+            return None, None
+
+        rs, re_ = rng("range")
+        is_, ie = rng("iter")
+        bs = guards.norm(d.get("buf_size")) if d.get("buf_size") is not None else None
+        ok, why = False, "the Drain is not built from two `Range { start, end }` values and a saved size"
+        if None not in (rs, re_, is_, ie, bs):
+            Nn = ("cparam", "N")
+            Z = guards.Guards(f).closure(b, extra_terms=[rs, re_, is_, ie, bs, Nn])
+            chain = [(rs, is_, "range.start <= iter.start"), (is_, ie, "iter.start <= iter.end"), (ie, re_, "iter.end <= range.end"),
+                     (re_, bs, "range.end <= buf_size"), (bs, Nn, "buf_size <= N")]
+            bad = [t for (x, y, t) in chain if not Z.le(x, y, 0)]
+            ok, why = not bad, "not entailed where the Drain is built: %s" % ", ".join(bad)
+        ctx.check(ok, rule, OVER, "g: struct invariant established", short_loc(f, b, i),
+                  "the ordering range.start <= iter.start <= iter.end <= range.end <= buf_size <= N, which every rule about the drain "
+                  "assumes, is %s (a reversed or oversized range reaches the back-fill)" % why,
+                  "entailed by translate_range_bounds' postcondition and INV at the aggregate", cfg)
     # (c) no Drain method other than drop writes size
     n = 0
     for g in prog.fns.values():
@@ -423,6 +453,28 @@ def backfill2(ctx, prog, cfg, rule="BACKFILL2"):
                     "the initial source/destination cursors of the back-fill are not `CircularSlicePtr::new(items).add(..)` chains", cfg)
         return
     S0, D0, R0 = S0[0], D0[0], R0[0]
+    # how the counter bounds the copy: as itself (counts down: `min(.., remaining)`) or as the distance to a fixed bound
+    # (counts up: `min(.., back_len - moved)`); either way "what is left" is a linear form and shrinks by the copied count
+    up_bound = None
+
+    def min_leaves(e):
+        e = mir.strip_casts(e)
+        if isinstance(e, tuple) and e and e[0] == "pcall" and str(e[1]).split("::")[-1] == "min" and len(e[2]) == 2:
+            return min_leaves(e[2][0]) + min_leaves(e[2][1])
+        return [e]
+
+    phi_r = ("phi", head, ("L", lr))
+    leaf = [x for x in min_leaves(cnt) if any(y == phi_r for y in mir.walk(x))]
+    form_ok = len(leaf) == 1 and (leaf[0] == phi_r or (leaf[0][0] == "binop" and leaf[0][1] in ("Sub", "SubUnchecked") and mir.strip_casts(leaf[0][3]) == phi_r
+                                                        and not any(y == phi_r for y in mir.walk(leaf[0][2]))))
+    if not form_ok:
+        ctx.violate(rule, f.short, "count bounded by what is left", f.loc,
+                    "the count given to ptr::copy is not `min(.., counter)` / `min(.., bound - counter)` of the loop counter: how many "
+                    "elements are left to move cannot be read off", cfg)
+        return
+    if leaf[0] != phi_r:
+        up_bound = leaf[0][2]
+        R0 = _dlin(f, up_bound, 1, {k: -v for k, v in R0.items()})   # bound - initial counter
     sz = _dlin(f, stores[0][2])
 
     def minus(a, b):
@@ -463,6 +515,24 @@ def backfill2(ctx, prog, cfg, rule="BACKFILL2"):
                       "cursor' = cursor.add(copy count)", cfg)
     for e in step.get(lr, []):
         e = mir.strip_casts(e)
-        ok = isinstance(e, tuple) and e and e[0] == "binop" and e[1] in ("Sub", "SubUnchecked") and _phi_local(e[2], head) == lr and f.deep_simplify(e[3]) == cnt
+        ops = ("Sub", "SubUnchecked") if up_bound is None else ("Add", "AddUnchecked")
+        ok = isinstance(e, tuple) and e and e[0] == "binop" and e[1] in ops and ((_phi_local(e[2], head) == lr and f.deep_simplify(e[3]) == cnt)
+                                                                             or (up_bound is not None and _phi_local(e[3], head) == lr and f.deep_simplify(e[2]) == cnt))
         ctx.check(ok, rule, f.short, "counter decreases by the copied count", f.loc,
-                  "the counter of the back-fill is not reduced by exactly the count given to ptr::copy", "remaining' = remaining - copy count", cfg)
+                  "what is left to move is not reduced by exactly the count given to ptr::copy in each iteration", "left' = left - copy count", cfg)
+    # the loop is left only when nothing is left to move
+    Gx = guards.Guards(f)
+    for (s_, kind, label) in f.succ_edges(head):
+        if kind != "normal" or s_ in body:
+            continue
+        atoms = set(Gx.facts_at(head)) | set(Gx.edge_atoms(head, label))
+        if up_bound is None:
+            Z = guards.Zone(f, atoms, [phi_r])
+            ok = Z.contradiction or Z.eq0(phi_r)
+        else:
+            ub = guards.norm(up_bound)
+            Z = guards.Zone(f, atoms, [phi_r, ub])
+            ok = Z.contradiction or Z.le(ub, phi_r, 0)
+        ctx.check(ok, rule, f.short, "loop left only when nothing is left to move", short_loc(f, head),
+                  "the back-fill loop can be left while elements behind the hole are still to be moved (the exit edge does not establish "
+                  "that the count of what is left is zero)", "exit edge entails left == 0", cfg)
